@@ -1,4 +1,5 @@
 mod content;
+mod dir;
 mod dump;
 mod manifest;
 mod mkcont;
@@ -30,6 +31,7 @@ fn main() {
             "views" => views::run(c, &tmp),
             "manifest" => manifest::run(c, &tmp),
             "content" => content::run(c, &tmp),
+            "dir" => dir::run(c, &tmp),
             f => panic!("unknown family {f}"),
         }));
         match r {
